@@ -484,12 +484,40 @@ def ToNNX.call {α ι ο μ : Type} (m : LinenMod α ι ο μ) (s : ToNNX α) (m
 
 /-! ## ToLinen -/
 
-/-- the wrapped NNX class, abstractly: construction gives a state (path ↦ Variable); a call maps
-state to output and new state; `reseed` is `nnx.reseed` with the keys Linen provides -/
-structure NnxMod (α ι ο : Type) where
-  construct : Keys → Except Err (Forest (NVar α))
-  reseed : Forest (NVar α) → Keys → Forest (NVar α)
-  call : Forest (NVar α) → ι → Except Err (ο × Forest (NVar α))
+/-- JAX keys as symbolic terms: a key the caller passed in, the key Linen's `make_rng` derives from it at
+a scope path (per-scope, per-stream counter), and `jax.random.fold_in(key, n)` -/
+inductive KeyT where
+  | base (k : Key)
+  | linen (k : KeyT) (path : Path) (count : Nat)
+  | fold (k : KeyT) (n : Nat)
+  deriving Repr, DecidableEq, Inhabited
+
+/-- an `nnx.RngStream`: `__call__` returns `fold_in(key, count)` and bumps the count -/
+structure RngStream where
+  key : KeyT
+  count : Nat
+  deriving Repr, DecidableEq, Inhabited
+
+def RngStream.draw (s : RngStream) : KeyT × RngStream := (.fold s.key s.count, { s with count := s.count + 1 })
+
+/-- `nnx.reseed(module, **keys)`: every stream whose tag is among the names gets the key, count 0 -/
+def reseedStreams (ss : List (String × RngStream)) (ks : List (String × KeyT)) : List (String × RngStream) :=
+  ss.map fun e => match ks.find? (fun k => k.1 = e.1) with
+    | some k => (e.1, ⟨k.2, 0⟩)
+    | none => e
+
+/-- `linen_rngs_dict(self)` inside `ToLinen.__call__`: one `make_rng(name)` per stream of the Linen
+apply call, at the wrapper's scope; every Linen `apply` starts its counters at 0 -/
+def linenRngsDict (scopePath : Path) (rngs : Keys) : List (String × KeyT) :=
+  rngs.map fun e => (e.1, .linen (.base e.2) scopePath 0)
+
+/-- the wrapped NNX class, abstractly. `γ` is the graph definition (static structure, opaque):
+`construct` is `nnx.split(nnx_class(*args, rngs=…))`, `call g s x` is `nnx.merge(g, s)`, the call, and
+`nnx.split` again; `reseed` is `nnx.reseed` acting on the state's RNG Variables -/
+structure NnxMod (α ι ο γ : Type) where
+  construct : List (String × KeyT) → Except Err (γ × Forest (NVar α))
+  reseed : Forest (NVar α) → List (String × KeyT) → Forest (NVar α)
+  call : γ → Forest (NVar α) → ι → Except Err (ο × γ × Forest (NVar α))
 
 /-- `ToLinen._update_variables`: every Variable goes to the collection named after its type
 (registering the type's `__name__` when it has no name yet), only into mutable collections -/
@@ -563,20 +591,38 @@ def decodeVars {α : Type} (r : Reg) (vars : Forest (LBox α)) : Except Err (Reg
   let state ← unflatten flat
   pure (r', state)
 
-/-- `ToLinen.__call__` while initialising: construct, store the fresh state, then call -/
-def toLinenInit {α ι ο : Type} (m : NnxMod α ι ο) (r : Reg) (keys : Keys) (x : ι) :
-    Except Err (ο × Reg × Forest (LBox α)) := do
-  let s ← m.construct keys
-  let (r', vars) ← encodeState r (fun _ => true) s
-  let (out, _) ← m.call s x
-  pure (out, r', vars)
+/-- what a Linen caller holds for a ToLinen module: `variables['nnx']['graphdef']` and every other
+collection -/
+structure LinenVars (α γ : Type) where
+  gdef : Option γ
+  vars : Forest (LBox α)
 
-/-- `ToLinen.__call__` on the apply path; returns the output and what `_update_variables` puts -/
-def toLinenApply {α ι ο : Type} (m : NnxMod α ι ο) (r : Reg) (vars : Forest (LBox α)) (keys : Keys)
-    (isMutable : String → Bool) (x : ι) : Except Err (ο × Reg × Forest (LBox α)) := do
-  let (r1, s) ← decodeVars r vars
-  let (out, s') ← m.call (m.reseed s keys) x
+/-- `ToLinen.__call__` while initialising: construct, store graphdef and fresh state, then call -/
+def toLinenInit {α ι ο γ : Type} (m : NnxMod α ι ο γ) (r : Reg) (scopePath : Path) (rngs : Keys) (x : ι) :
+    Except Err (ο × Reg × LinenVars α γ) := do
+  let (g, s) ← m.construct (linenRngsDict scopePath rngs)
+  let (r', vars) ← encodeState r (fun _ => true) s
+  let (out, _, _) ← m.call g s x
+  pure (out, r', ⟨some g, vars⟩)
+
+/-- `ToLinen.__call__` on the apply path: read the graphdef, rebuild the state, reseed with the keys
+Linen provides, call, and hand graphdef (when `nnx` is mutable) and state to `_update_variables` -/
+def toLinenApply {α ι ο γ : Type} (m : NnxMod α ι ο γ) (r : Reg) (scopePath : Path) (lv : LinenVars α γ)
+    (rngs : Keys) (isMutable : String → Bool) (x : ι) :
+    Except Err (ο × Reg × Option γ × Forest (LBox α)) := do
+  let g ← match lv.gdef with
+    | some g => pure g
+    | none => .error .keyError        -- the collection `nnx` was dropped
+  let (r1, s) ← decodeVars r lv.vars
+  let (out, g', s') ← m.call g (m.reseed s (linenRngsDict scopePath rngs)) x
   let (r2, upd) ← encodeState r1 isMutable s'
-  pure (out, r2, upd)
+  pure (out, r2, (if isMutable "nnx" then some g' else none), upd)
+
+/-- one `apply` by a Linen caller who folds the returned collections back into what he holds, leaf by leaf -/
+def LinenVars.step {α ι ο γ : Type} (m : NnxMod α ι ο γ) (r : Reg) (scopePath : Path) (lv : LinenVars α γ)
+    (rngs : Keys) (isMutable : String → Bool) (x : ι) : Except Err (ο × Reg × LinenVars α γ) := do
+  let (out, r', g?, upd) ← toLinenApply m r scopePath lv rngs isMutable x
+  let vars' ← recursiveMerge lv.vars upd
+  pure (out, r', ⟨(match g? with | some g => some g | none => lv.gdef), vars'⟩)
 
 end Flax.Bridge
